@@ -263,9 +263,20 @@ func runCheck(o checkOpts) int {
 	}
 	// vacuity guards
 	vacuous := 0
+	coverOK := map[string]bool{}
+	var coverNames []string
 	for _, c := range e.covers {
-		if c.Verdict == "vacuous" && violations == 0 {
-			fmt.Printf("BROKEN property=%s vacuity: %s has an unsatisfiable path condition\n", o.prop, c.Name)
+		if _, ok := coverOK[c.Name]; !ok {
+			coverOK[c.Name] = false
+			coverNames = append(coverNames, c.Name)
+		}
+		if c.Verdict != "vacuous" {
+			coverOK[c.Name] = true
+		}
+	}
+	for _, n := range coverNames {
+		if !coverOK[n] && violations == 0 {
+			fmt.Printf("BROKEN property=%s vacuity: %s: every path condition is unsatisfiable\n", o.prop, n)
 			vacuous++
 		}
 	}
@@ -347,7 +358,7 @@ func runCheck(o checkOpts) int {
 	}
 	trusted = append(trusted, sortedKeys(e.trustedUsed)...)
 	assumptions := append([]string{}, notes...)
-	assumptions = append(assumptions, "integers: mathematical Int with exact wrap-around (wrapN) on every arithmetic result; floats: SMT FloatingPoint(11,53)")
+	assumptions = append(assumptions, "integers: mathematical Int with exact wrap-around (wrapN) on every arithmetic result; floats: abstract sort with IEEE comparison semantics (NaN flag + monotone order key, +0 == -0); float arithmetic and int<->float conversions are uninterpreted functions (congruence only)")
 	for _, ps := range e.specs {
 		for _, lm := range ps.Lemmas {
 			if lm.Axiom && (len(lm.Props) == 0 || contains(lm.Props, o.prop)) {
